@@ -179,6 +179,31 @@ def judge_shared_telepods(s, a):
     return None
 
 
+def judge_not_on_telepod():
+    """teleportation never displaces an agent that does not stand on a telepod - whatever else it stands on (objects of
+    the telepods' colour, colourless floor next to colourless telepods)"""
+    n = 0
+    under = [FLOOR, U.key(U.C1), U.beacon(U.C1), U.door(0, U.C1), U.exit_(U.C1), U.exit_(0), U.key(0)]
+    for tcol in (U.C1, 0):
+        for k in (1, 2, 3):
+            for obj in under:
+                rows = [[FLOOR] * 5]
+                rows[0][0] = obj
+                for i in range(k):
+                    rows[0][2 + i] = U.telepod(tcol)
+                rows = tuple(tuple(r) for r in rows)
+                s = (rows, 0, 0, 'R', NONE)
+                for a in ('TURN_LEFT', 'ACTUATE'):
+                    n += 1
+                    outs, _ = dyn.outcomes(TF['teleport'], s, a)
+                    for choices, res in outs:
+                        if res != s:
+                            what = f'raised {res[1]}' if dyn.is_exc(res) else f'moved the agent to {(res[1], res[2])}'
+                            return n, (f'teleport {what} although the agent stands on {obj[0]}(colour {obj[2]}), not on a telepod '
+                                       f'({k} telepods of colour {tcol} elsewhere)'), s
+    return n, None, None
+
+
 def telepod_layouts(shape, max_t):
     h, w = shape
     cells = [(y, x) for y in range(h) for x in range(w)]
@@ -273,6 +298,8 @@ def replay(case):
         return judge_teleport(tup(case['s']), case['a'])[2]
     if case['kind'] == 'tele_shared':
         return judge_shared_telepods(tup(case['s']), case['a'])
+    if case['kind'] == 'not_on_telepod':
+        return judge_not_on_telepod()[1]
     if case['kind'] == 'lineage':
         return judge_lineage(tup(case['rows']), tuple(case['agent']))
     raise ValueError(case['kind'])
@@ -312,6 +339,10 @@ def run(rep, tier, seed):
         for smp in samples:
             rep.sample(smp, limit=6)
         fails.extend(fl)
+    nt, mt, st_ = judge_not_on_telepod()
+    if mt:
+        fails.append({'kind': 'not_on_telepod', 'message': mt, 's': st_, 'sig': {'fn': 'teleport', 'part': 'not_on_telepod'}})
+    rep.part('not_on_telepod', cases=nt)
     ln = 0
     for rows, agent in lineage_cases():
         ln += 1
